@@ -62,7 +62,10 @@ var baseTime = time.Now().Add(-24 * time.Hour).Truncate(time.Second)
 const (
 	mPass = iota
 	mSched
+	mFree // after an infeasible switch point: no more control
 )
+
+var blockedRuns int64
 
 type worker struct {
 	id                  int
@@ -370,7 +373,7 @@ func (w *worker) runState(c Case) (class, detail string, after any) {
 		}
 	}
 	ret := cache.VerifCleanC14(dc, uint64(c.High), uint64(c.Low))
-	pfx := "clean:" + compName(c.Compress) + ":"
+	pfx := "clean:"
 	status := make([]string, len(ps))
 	var unprotAfter int64
 	unprotLeft := 0
@@ -493,10 +496,28 @@ func (w *worker) runConc(c Case) (class, detail string, after any) {
 		}
 		w.cur, w.budget = s.t, s.n
 		w.gates[s.t] <- struct{}{}
-		if <-w.yield == 1 {
-			finished[s.t] = true
-			if s.n >= 0 && w.early < 0 {
-				w.early = i
+		select {
+		case ev := <-w.yield:
+			if ev == 1 {
+				finished[s.t] = true
+				if s.n >= 0 && w.early < 0 {
+					w.early = i
+				}
+			}
+		case <-time.After(3 * time.Second):
+			// the running thread waits for something the paused thread holds (a lock): this switch point is not
+			// feasible. Let both run freely to completion - still a legal execution - and judge the end state.
+			w.mode = mFree
+			atomic.AddInt64(&blockedRuns, 1)
+			other := 1 - s.t
+			if !finished[other] {
+				w.gates[other] <- struct{}{}
+			}
+			for t := 0; t < 2; t++ {
+				if !finished[t] {
+					<-w.yield
+					finished[t] = true
+				}
 			}
 		}
 	}
@@ -796,7 +817,7 @@ func main() {
 		Transitions:        int(transitions),
 		TracesValidated:    int(concRuns),
 		Exhaustive:         exhaustive,
-		Extra: map[string]any{"state_cases": stateCases, "interleavings": concRuns, "entry_lists": len(lists),
+		Extra: map[string]any{"state_cases": stateCases, "interleavings": concRuns, "interleavings_with_an_infeasible_switch_point": blockedRuns, "entry_lists": len(lists),
 			"space": fmt.Sprintf("<=%d entries x payload KiB %v x access time (minutes after base) %v x marks %q x high in {1,total-1,total,total+1} x low in {subset sum, subset sum+1}; compressed and not; stray files with every 5th content; interleavings: 1-2 old entries x {store-new, store-existing, retrieve-existing} x {CXC, XCX} x every pause point", maxN, kibs, atimes, marks)},
 	})
 }
